@@ -330,39 +330,6 @@ theorem unfragmented_passthrough (p : Pool) (k : Key) (pl : Bytes) (ts : Nat) :
 
 /-! ### streams with different keys do not interact -/
 
-theorem lookup_erase_ne (k k' : Key) (hne : k' ≠ k) : ∀ m : List (Key × Buf × Nat),
-    lookup k' (erase k m) = lookup k' m
-  | [] => rfl
-  | (k1, v) :: m => by
-    simp only [erase]
-    by_cases h1 : k1 = k
-    · simp only [h1, if_true, lookup]
-      have : ¬ k = k' := fun hh => hne hh.symm
-      simp [this]
-    · simp only [h1, if_false, lookup]
-      rw [lookup_erase_ne k k' hne m]
-
-theorem lookup_replace_ne (k k' : Key) (v : Buf × Nat) (hne : k' ≠ k) :
-    ∀ m : List (Key × Buf × Nat), lookup k' (replace k v m) = lookup k' m
-  | [] => rfl
-  | (k1, v1) :: m => by
-    simp only [replace]
-    by_cases h1 : k1 = k
-    · simp only [h1, if_true, lookup]
-      have : ¬ k = k' := fun hh => hne hh.symm
-      simp [this]
-    · simp only [h1, if_false, lookup]
-      rw [lookup_replace_ne k k' v hne m]
-
-theorem lookup_append_ne (k k' : Key) (v : Buf × Nat) (hne : k' ≠ k) :
-    ∀ m : List (Key × Buf × Nat), lookup k' (m ++ [(k, v)]) = lookup k' m
-  | [] => by
-    have : ¬ k = k' := fun hh => hne hh.symm
-    simp [lookup, this]
-  | (k1, v1) :: m => by
-    simp only [List.cons_append, lookup]
-    rw [lookup_append_ne k k' v hne m]
-
 /-- **key isolation**: processing a fragment of stream `k` leaves the buffer and time stamp of every
     other stream `k'` (any differing component: version, addresses, identification, protocol, VLAN
     ids, channel) exactly as they were. -/
@@ -392,12 +359,6 @@ theorem other_streams_untouched (p : Pool) (k k' : Key) (fo : Nat) (mf : Bool) (
   · rw [process_notfrag p k fo mf pl ts hf]
 
 /-! ### the pool refines the abstract pool, over all histories -/
-
-/-- outputs of a history agree, operation by operation -/
-def AllMatch : List Defrag.Op → List Defrag.Out → List Spec.Reasm.Out → Prop
-  | [], [], [] => True
-  | op :: ops, o :: os, so :: sos => OutMatches op o so ∧ AllMatch ops os sos
-  | _, _, _ => False
 
 /-- **pool_refines**: from any pool state whose streams represent abstract streams (`Rel`; the
     recycled vectors and the outstanding results are arbitrary, i.e. may hold any stale bytes), every
@@ -478,29 +439,6 @@ theorem pool_returns_original {s : Session} {sp : Spec.Reasm.Pool Key}
   rw [emit_consistent hall' he]
   exact ⟨rfl, rfl⟩
 
-theorem outMatches_ok {op : Defrag.Op} {p : Payload} {so : Spec.Reasm.Out}
-    (h : OutMatches op (.ok p) so) : ∃ bs : Bytes, p.payload = bs.map some := by
-  unfold OutMatches at h
-  split at h
-  · obtain ⟨n, hn⟩ := h; cases hn
-  · cases h; exact ⟨_, rfl⟩
-  · cases h
-  · cases h
-  · cases h
-  · cases h
-
-theorem allMatch_ok : ∀ {ops : List Defrag.Op} {os : List Defrag.Out} {sos : List Spec.Reasm.Out},
-    AllMatch ops os sos → ∀ p, Out.ok p ∈ os → ∃ bs : Bytes, p.payload = bs.map some
-  | [], [], [], _, p, hm => by cases hm
-  | op :: ops, o :: os, so :: sos, h, p, hm => by
-    rcases List.mem_cons.1 hm with hm | hm
-    · rw [← hm] at h; exact outMatches_ok h.1
-    · exact allMatch_ok h.2 p hm
-  | [], [], _ :: _, h, _, _ => by cases h
-  | [], _ :: _, _, h, _, _ => by cases h
-  | _ :: _, [], _, h, _, _ => by cases h
-  | _ :: _, _ :: _, [], h, _, _ => by cases h
-
 /-- **no_stale_bytes**: in every history from any reachable pool state — whatever the recycled
     vectors hold (`s.pool.finishedDataBufs` is arbitrary) and whichever buffers are returned in
     between — every cell of every returned payload is `some`: it was written by `copy_from_slice`
@@ -530,114 +468,6 @@ theorem returned_bytes_delivered {s : Session} {sp : Spec.Reasm.Pool Key}
   exact ⟨f, hf, h1, h2, by simp only [List.getElem?_map, h3]⟩
 
 /-! ### exactly once: a completed stream is forgotten -/
-
-/-- no key occurs twice in the map (the HashMap property; an invariant of the model's list) -/
-def UniqueKeys : List (Key × Buf × Nat) → Prop
-  | [] => True
-  | (k, _) :: m => lookup k m = none ∧ UniqueKeys m
-
-theorem lookup_replace_none (k : Key) (v : Buf × Nat) (k' : Key) :
-    ∀ m : List (Key × Buf × Nat), lookup k' (replace k v m) = none ↔ lookup k' m = none
-  | [] => by simp [replace]
-  | (k1, v1) :: m => by
-    simp only [replace]
-    by_cases h1 : k1 = k
-    · simp only [h1, if_true, lookup]
-      by_cases h2 : k = k' <;> simp [h2]
-    · simp only [h1, if_false, lookup]
-      by_cases h2 : k1 = k'
-      · simp [h2]
-      · simp only [h2, if_false]; exact lookup_replace_none k v k' m
-
-theorem lookup_filter_none (f : Key × Buf × Nat → Bool) (k : Key) :
-    ∀ m : List (Key × Buf × Nat), lookup k m = none → lookup k (m.filter f) = none
-  | [], _ => rfl
-  | (k1, v1) :: m, h => by
-    simp only [lookup] at h
-    by_cases h1 : k1 = k
-    · simp [h1] at h
-    · simp only [h1, if_false] at h
-      simp only [List.filter_cons]
-      split
-      · simp only [lookup, h1, if_false]; exact lookup_filter_none f k m h
-      · exact lookup_filter_none f k m h
-
-theorem unique_erase (k : Key) : ∀ m : List (Key × Buf × Nat), UniqueKeys m → UniqueKeys (erase k m)
-  | [], _ => trivial
-  | (k1, v1) :: m, h => by
-    simp only [erase]
-    by_cases h1 : k1 = k
-    · simp only [h1, if_true]; exact h.2
-    · simp only [h1, if_false]
-      exact ⟨by rw [lookup_erase_ne k k1 h1 m]; exact h.1, unique_erase k m h.2⟩
-
-theorem unique_replace (k : Key) (v : Buf × Nat) :
-    ∀ m : List (Key × Buf × Nat), UniqueKeys m → UniqueKeys (replace k v m)
-  | [], _ => trivial
-  | (k1, v1) :: m, h => by
-    simp only [replace]
-    by_cases h1 : k1 = k
-    · simp only [h1, if_true]; exact ⟨by rw [← h1]; exact h.1, h.2⟩
-    · simp only [h1, if_false]
-      exact ⟨(lookup_replace_none k v k1 m).2 h.1, unique_replace k v m h.2⟩
-
-theorem unique_append (k : Key) (v : Buf × Nat) :
-    ∀ m : List (Key × Buf × Nat), UniqueKeys m → lookup k m = none → UniqueKeys (m ++ [(k, v)])
-  | [], _, _ => ⟨rfl, trivial⟩
-  | (k1, v1) :: m, h, hl => by
-    simp only [lookup] at hl
-    by_cases h1 : k1 = k
-    · simp [h1] at hl
-    · simp only [h1, if_false] at hl
-      simp only [List.cons_append]
-      exact ⟨by rw [lookup_append_ne k k1 v h1 m]; exact h.1, unique_append k v m h.2 hl⟩
-
-theorem unique_filter (f : Key × Buf × Nat → Bool) :
-    ∀ m : List (Key × Buf × Nat), UniqueKeys m → UniqueKeys (m.filter f)
-  | [], _ => trivial
-  | (k1, v1) :: m, h => by
-    simp only [List.filter_cons]
-    split
-    · exact ⟨lookup_filter_none f k1 m h.1, unique_filter f m h.2⟩
-    · exact unique_filter f m h.2
-
-theorem lookup_erase_self (k : Key) :
-    ∀ m : List (Key × Buf × Nat), UniqueKeys m → lookup k (erase k m) = none
-  | [], _ => rfl
-  | (k1, v1) :: m, h => by
-    simp only [erase]
-    by_cases h1 : k1 = k
-    · simp only [h1, if_true]; rw [← h1]; exact h.1
-    · simp only [h1, if_false, lookup]; exact lookup_erase_self k m h.2
-
-/-- key uniqueness is kept by `process_sliced_packet` -/
-theorem unique_process (p : Pool) (pkt : Packet) (ts : Nat) (h : UniqueKeys p.active) :
-    UniqueKeys (p.process pkt ts).1.active := by
-  cases pkt with
-  | nonIp => exact h
-  | plain k pl => exact h
-  | frag k fo mf pl =>
-    by_cases hf : mf = true ∨ fo ≠ 0
-    · cases hl : lookup k p.active with
-      | none =>
-        cases ha : (Buf.new k.payloadIpNumber).add fo mf pl with
-        | ok b' =>
-          rw [process_vacant_ok p k fo mf pl ts hf hl ha]
-          exact unique_append k _ _ h hl
-        | error e' => rw [process_vacant_err p k fo mf pl ts hf hl ha]; exact h
-      | some v =>
-        obtain ⟨b, t⟩ := v
-        cases ha : b.add fo mf pl with
-        | error e' => rw [process_occupied_err p k fo mf pl ts hf hl ha]; exact h
-        | ok b' =>
-          cases hc : b'.isComplete with
-          | true =>
-            rw [process_occupied_complete p k fo mf pl ts hf hl ha hc]
-            exact unique_erase k _ h
-          | false =>
-            rw [process_occupied_more p k fo mf pl ts hf hl ha hc]
-            exact unique_replace k _ _ h
-    · rw [process_notfrag p k fo mf pl ts hf]; exact h
 
 /-- key uniqueness holds after every history on a new pool -/
 theorem unique_keys_invariant (ops : List Defrag.Op) : ∀ (s : Session), UniqueKeys s.pool.active →
